@@ -17,6 +17,7 @@
 #include <stdexcept>
 #include <string>
 #include <type_traits>
+#include <utility>
 #include <vector>
 
 namespace verif {
@@ -124,6 +125,15 @@ struct ledger_allocator {
 
 	// copy construction of a container goes through this; instances of class c select class c (id + 100 marks "selected")
 	ledger_allocator select_on_container_copy_construction() const { return ledger_allocator{id % 100 + 100, cls}; }   // "a selected copy of instance id % 100" (ArrayOps!Select)
+
+#ifdef VERIF_ALLOC_CONSTRUCT_FAULTS
+	// an allocator that builds the elements itself and can fail doing so (as uses-allocator construction through a
+	// std::pmr::polymorphic_allocator can, even for an element whose own move constructor is noexcept)
+	template<class V, class... As> void construct(V* p, As&&... as) {
+		if(ledger().hit()) { throw injected{}; }
+		::new(static_cast<void*>(p)) V(std::forward<As>(as)...);
+	}
+#endif
 
 	U* allocate(std::size_t n) {
 		auto& L = ledger();
